@@ -784,6 +784,32 @@ def _model_exit(ctx):
                        '(remove_node)',
                        construct=site.text() + ' <= remove_node')
     ctx.require(count >= 1, 'del self.servers[...] in Loader', rule='C01.8')
+    # ... and remove_all() does release them: it removes every instance the
+    # server lists through Server.remove (the routine that keeps capacity,
+    # the instance's view and the counters in step)
+    server = ctx.index.get_class(K.SCHED, 'Server')
+    ra = server.methods.get('remove_all')
+    ctx.require(ra is not None, 'Server.remove_all')
+    rgraph = ctx.cfg(ra)
+    loops = [n for n in rgraph.nodes if n.kind == 'for' and
+             'self.apps' in K.rtxt(ra, n.ast.iter)]
+    ok = False
+    for loop in loops:
+        var = sorted(N.for_targets(loop))[0]
+        body = K.loop_body_nodes(loop)
+        removes = [n for n in body if any(
+            K.is_meth(c, 'remove') and K.recv_text(c) == 'self' and c.args
+            and N.txt(c.args[0]) in (var, '%s.name' % var)
+            for c in C.node_calls(n))]
+        skip = K.find_path(loop, [loop], cut_node=lambda n: n in removes,
+                           cut_edge=lambda e, lp=loop: e.src is lp and
+                           e.kind == 'done', follow_exc=False)
+        early = [e for e in K.loop_exit_edges(loop)
+                 if e.kind not in ('done', 'exc')]
+        ok = ok or (bool(removes) and skip is None and not early)
+    ctx.ob('C01.8', ra, loops[0] if loops else None, ok,
+           'remove_all() removes every instance the server lists through '
+           'Server.remove', construct='remove_all releases every placement')
 
 
 def _reported(ctx):
